@@ -91,6 +91,16 @@ def o_headers(case):
         for low in (0, 0xF):
             check_one(bytes([n >> 4, (n & 0xF) << 4 | low]), None)
             evals += 1
+    if n >> 4 == 0xD3:
+        # payloads that look like a transport frame themselves (first byte 0xD3, then a length that matches): the
+        # identity is still the number in the first 12 bits
+        for ln in range(0, 24):
+            inner = tail_for(n, ln, 9, ln)
+            for p in (bytes([0xD3, 0, ln]) + inner + tail_for(n, ln, 8, 3), framing.build_frame(inner)):
+                if framing.msgnum(p) == n:  # 0xD3 0x0. = 3376 only
+                    check_one(p, None)
+                    evals += 1
+        cls.add("frame-shaped-payload")
     cls.add("msm-roster" if n in MSM_ROSTER else ("msm-block-other" if 1070 <= n <= 1229 else "outside-msm-block"))
     if n == 4076:
         cls.add("4076")
